@@ -159,6 +159,17 @@ def fields_read_spec(methods, name, env, _seen=None):
     return out
 
 
+def write_nodes_of_fields(f, fields):
+    """assignments of `f` to one of the named self fields (re-indexers write the index, they are not readers)"""
+    out = []
+    for n in walk_no_nested(f):
+        if isinstance(n, (ast.Assign, ast.AugAssign)):
+            for t in (n.targets if isinstance(n, ast.Assign) else [n.target]):
+                if self_field(t) in fields:
+                    out.append(n)
+    return out
+
+
 def analyse_class(ctx, relpath, cls, rid):
     ix = ctx.ix
     methods = class_methods(ix, relpath, cls)
@@ -383,7 +394,10 @@ def r2(ctx):
     # lookups that read the index re-sort first
     index_fields = {'startCoordinates', 'endCoordinates', 'fastIndex', 'endIndexes', 'endIndexLookup', 'maxFeatureSizes'}
     n = 0
-    for name in ('_findFeaturesAt', 'findNearestLeftFeature', 'findNearestRightFeature'):
+    # every method that reads an index array: the queries named in the property first, then whatever else consults the index
+    readers = [name for name, f in methods.items() if name.lstrip('_').startswith('find') and not write_nodes_of_fields(f, index_fields)
+               and any(isinstance(x, ast.Attribute) and isinstance(x.value, ast.Name) and x.value.id == 'self' and x.attr in index_fields and isinstance(x.ctx, ast.Load) for x in walk_no_nested(f))]
+    for name in sorted(set(['_findFeaturesAt', 'findNearestLeftFeature', 'findNearestRightFeature']) | set(readers)):
         f = methods.get(name)
         if f is None:
             continue
